@@ -3,10 +3,10 @@ package main
 // generators for the revocation properties C04 C05 C06 C10 C11 C12
 
 import (
-	"strings"
 	"fmt"
 	"math/big"
 	"math/rand"
+	"strings"
 	"time"
 
 	corecrl "github.com/notaryproject/notation-core-go/revocation/crl"
@@ -164,7 +164,7 @@ func genC05(r *Runner) {
 type entryAbs struct {
 	match  bool
 	reason int
-	tIdx   int // revocation time index 0..2
+	tIdx   int    // revocation time index 0..2
 	inv    string // "none","before","equal","after","malformed"
 	crit   bool
 }
@@ -442,6 +442,25 @@ func genC12(r *Runner) {
 			cases = append(cases, c)
 		}
 	}
+	// the shape of one certificate's result: every sequence of up to three responders over the decisive / inconclusive classes x what the
+	// distribution points say, both entry points
+	for no := 1; no <= 3; no++ {
+		for _, os := range sequences([]string{"good", "revoked", "unknown", "transport-error", "timeout"}, no) {
+			for _, ks := range [][]string{nil, {"clean"}, {"lists-cert"}, {"fetch-error"}, {"fetch-error", "clean"}, {"clean", "lists-cert"}} {
+				l := levelSpec{ocspURLs: urlsN(ocspURL, 0, no), ocspBeh: os, crlURLs: urlsN(crlURL, 0, len(ks)), crlBeh: ks}
+				cases = append(cases, one(l, 2, fmt.Sprintf("shape-o%dk%d", no, len(ks))))
+				if len(ks) == 0 {
+					c := one(l, 2, fmt.Sprintf("shape-o%d-ocsp-entry-point", no))
+					c.mode = "ocsp"
+					cases = append(cases, c)
+				}
+			}
+		}
+	}
+	// richer alphabets on chains of 2..4
+	for i := 0; i < 300; i++ {
+		cases = append(cases, randomMultiCase(rng, "rich", append(append([]string{}, ocspCore...), c11Inconclusive[:8]...), crlCore, 1+rng.Intn(3), 3))
+	}
 	// invalid chains of each purpose, the empty chain, a chain for the other purpose
 	for _, mode := range []string{"full", "ocsp"} {
 		for _, ts := range []bool{false, true} {
@@ -471,7 +490,6 @@ func genC12(r *Runner) {
 var c06OcspFaults = []string{"transport-error", "timeout", "http-404", "http-500", "empty-body", "truncated", "oversize", "garbage", "err-trylater", "err-internal", "body-read-error",
 	"good", "revoked", "good-expired"}
 var c06CrlFaults = []string{"fetch-error", "expired", "wrong-signer", "no-nextupdate", "clean", "lists-cert"}
-
 
 // crlSchemeFaultCases: distribution points that are not plain http (the fetcher refuses them: a failed download like any other), alone,
 // together, next to a good one — for each of the given OCSP situations; through the scripted fetcher and through the real HTTPFetcher
